@@ -79,8 +79,10 @@ def classify_c01(step, detail, root):
         return 'statement-ending-in-dangling-line-continuation'
     if 'Delete' in (step.get('anc') or ()) and any('*' in c for c in codes):
         return 'starred-accepted-into:Delete.targets'
-    if step['field'] == 'orelse' and step.get('before_mixed_indent'):
-        return 'mixed-tab-space-indent-elif-expansion'
+    if step['field'] == 'orelse' and step['ttype'] == 'If':
+        import re
+        if len(set(''.join(re.findall(r'^[ \t]+(?=\S)', root.src, re.M)))) > 1:
+            return 'elif-expansion-uses-tree-indent-not-block-indent'
     if step['ptype'] == 'Try' and step['field'] == 'handlers':
         try:
             par = edits_resolve(root.a, step['path'][:-1])
